@@ -69,11 +69,35 @@ def run_item(item):
                 o["target"] = c.target
                 o["name"] = f"{item['pid']}:{c.target.replace('btc_hd_wallet.', '')}#{o['name']}"
                 o.pop("smt2", None)
+            # A refuted LOOP obligation (entry / preservation of a sidecar invariant, a step clause) has a counter-model
+            # over the havocked loop state, not over the function's inputs: it cannot be replayed, and it fails as well
+            # when a harmless restructuring of the loop no longer matches the sidecar specification.  It is therefore
+            # not reported as a violation by itself: the proof of this contract counts as lost and the run-time
+            # evaluation of the same contract on the real function (below) decides.
+            loop_bad = [o for o in obls if o["verdict"] == "REFUTED" and o.get("outcome") == "loop obligation"]
+            if loop_bad:
+                # ... and every other obligation of this contract was derived ASSUMING that invariant
+                for o in obls:
+                    if o["verdict"] == "REFUTED":
+                        o["verdict"] = "UNDECIDED"
+                        o["reason"] = ("loop obligation refuted over a havocked loop state (no replayable input): " if o.get("outcome") == "loop obligation"
+                                       else "derived under a loop invariant that is not established: ") + str(o.get("clause"))
             und = [o for o in obls if o["verdict"] == "UNDECIDED"]
             if und:
                 from pyvc.bounded import bounded_contract
+                # clauses listed as known findings for this function do not stop the search for OTHER violations; whether
+                # the known one is still there is looked at separately (it is then reported as KNOWN-FINDING)
+                kf = [k["clause"] for k in load_known().get("known", []) if k.get("target") == c.target]
                 b = bounded_contract(c, item.get("seed", 0), n=1200 if item.get("tier") == "quick" else 6000,
-                                     budget_s=75 if item.get("tier") == "quick" else 300)
+                                     budget_s=75 if item.get("tier") == "quick" else 300, ignore=kf)
+                if kf:
+                    bk = bounded_contract(c, item.get("seed", 0), n=300, budget_s=20)
+                    if bk["verdict"] == "VIOLATED" and set(bk["replay"].get("failed") or ["?"]) <= set(kf):
+                        fk = bk["replay"]["failed"][0]
+                        obls.append(dict(name=f"{item['pid']}:{c.target.replace('btc_hd_wallet.', '')}#bounded.{fk}",
+                                         kind="bounded", verdict="VIOLATED", contract=item["spec"], target=c.target,
+                                         clause=fk, model=bk["model"], stubs=bk["stubs"], confirmed=True,
+                                         replay=bk["replay"], evaluations=bk["evaluations"], bound=bk["bound"], backend="bounded"))
                 if b["verdict"] == "VIOLATED":
                     failed = (b["replay"].get("failed") or ["bounded"])
                     obls.append(dict(name=f"{item['pid']}:{c.target.replace('btc_hd_wallet.', '')}#bounded.{failed[0]}",
@@ -279,7 +303,8 @@ def conclude(pid, tier, seed, P, results, t0, verbose):
             errors.append(o)
             continue
         if v == "UNDECIDED":
-            if o.get("needs_standin") and any(b.get("kind") == "bounded" and b["verdict"] == "HELD" for b in all_obl):
+            if o.get("needs_standin") and any(b.get("kind") == "bounded" and b["verdict"] == "HELD" and not str(b.get("name", "")).startswith("assumptions.")
+                                              for b in all_obl):
                 lost.append(o)
             else:
                 undecided.append(o)
